@@ -979,6 +979,18 @@ def _oracle_histories(ctx: C.Ctx) -> List[List[List[Any]]]:
     out.append([["new", "a", 1], ["add", 0, 0], ["discard", 1, 0], ["contains_id", 0, "a"], ["len", 1]])
     out.append([["new", "a", 1], ["add", 0, 0], ["get", 1, "a"], ["setver", 1, 5], ["commit", 1], ["update", 0], ["get", 0, "a"]])
     out.append([["new", "a", 1], ["add", 0, 0], ["drop", 0], ["gc"], ["get", 0, "a"], ["get", 0, "a"], ["iter", 0], ["get", 2, "a"]])
+    # (round 5) every short edit script of the ordered list (front insertions, appends, removals at the front - after which the list's
+    # private item names are no longer "in sequence"), committed, then refreshed through the same instance (retrieval, update()),
+    # committed again and read by another instance: the ORDER of a list is stored data
+    edits = [["ins0", 1], ["app", 2], ["pop0", 0], ["ins0", 3]]
+    for n in (1, 2, 3):
+        for script in itertools.product(edits, repeat=n):
+            if ctx.tier == "quick" and n == 3 and script[0][0] == "app" and script[1][0] == "app":
+                continue
+            h = [["new", "a", 1], ["add", 0, 0], ["ledit", 0, "app", 7], ["ledit", 0, "app", 8], ["commit", 0]]
+            h += [["ledit", 0, how, x] for how, x in script]
+            h += [["commit", 0], ["get", 0, "a"], ["update", 0], ["get", 1, "a"], ["commit", 0], ["get", 2, "a"]]
+            out.append(h)
     return out
 
 
@@ -1001,7 +1013,72 @@ def oracle(ctx: C.Ctx, cov: C.Coverage) -> List[C.Failing]:
                 sigs.add(f.sig)
                 out.append(f)
     cov.extra["oracle_histories"] = ctx.budget(150, 800) + 4
+    n_rich = ctx.budget(20, 600)
+    for i in range(-1, n_rich):
+        f = check_rich(ctx.seed, i)
+        if f and f.sig not in sigs:
+            sigs.add(f.sig)
+            out.append(f)
+    cov.extra["oracle_rich_payloads"] = n_rich + 1
     return out
+
+
+def check_rich(seed: int, index: int) -> Optional[C.Failing]:
+    """(round 5) "what was added or last committed is what any instance reads back, equal in every metamodel attribute": the
+    histories above abstract an object's content to a version number; here the content is an identifiable of the C03 generator
+    (index -1: the deterministic zoo of every edge value of every XSD type - empty strings, 0, false, b"" ...), compared
+    attribute by attribute (vf.canon) at every step: a later instance reads it; the adding instance hands out the very object,
+    refreshed but unchanged; update() leaves it unchanged; an edit + commit() is what a third instance reads."""
+    from props import c03
+    from vf import canon
+    model, local_file = _sdk()
+    c03._quiet()
+    obj = c03._make(seed, index, 3, 0.35)[0]
+    if not isinstance(obj, model.Identifiable):
+        return None
+    case = {"kind": "rich", "seed": seed, "index": index}
+    want = canon.canon(obj)
+    d = tempfile.mkdtemp(prefix="c14-rich-")
+    try:
+        a = local_file.LocalFileObjectStore(d)
+        a.check_directory(create=True)
+        try:
+            a.add(obj)
+        except Exception as e:
+            return C.Failing("rich:add:raises:" + type(e).__name__, f"add() of a generated {type(obj).__name__} raised {e!r}"[:200], case)
+        steps = [("later-instance", lambda: local_file.LocalFileObjectStore(d).get_identifiable(obj.id)),
+                 ("same-instance", lambda: a.get_identifiable(obj.id)),
+                 ("iteration", lambda: next(o for o in a if o.id == obj.id))]
+        for name, get in steps:
+            try:
+                got = get()
+            except Exception as e:
+                return C.Failing(f"rich:{name}:raises:" + type(e).__name__, f"{name} read of {obj.id!r} raised {e!r}"[:200], case)
+            if name != "later-instance" and got is not obj:
+                return C.Failing(f"rich:{name}:other-object", f"{name}: the store that added the object hands out another object", case)
+            df = canon.diff(want, canon.canon(got))
+            if df:
+                return C.Failing(f"rich:{name}:differs:" + c03.sig_of(df, "file", want).split(":", 2)[-1], f"{name} read differs from what was added: {df[:200]}", case)
+        try:
+            obj.update()
+        except Exception as e:
+            return C.Failing("rich:update:raises:" + type(e).__name__, f"update() raised {e!r}"[:200], case)
+        df = canon.diff(want, canon.canon(obj))
+        if df:
+            return C.Failing("rich:update:differs:" + c03.sig_of(df, "file", want).split(":", 2)[-1], f"update() with nothing written in between changed the object: {df[:200]}", case)
+        obj.category = "PARAMETER" if obj.category != "PARAMETER" else None
+        want2 = canon.canon(obj)
+        try:
+            obj.commit()
+            got = local_file.LocalFileObjectStore(d).get_identifiable(obj.id)
+        except Exception as e:
+            return C.Failing("rich:commit:raises:" + type(e).__name__, f"commit()/read raised {e!r}"[:200], case)
+        df = canon.diff(want2, canon.canon(got))
+        if df:
+            return C.Failing("rich:commit:differs:" + c03.sig_of(df, "file", want).split(":", 2)[-1], f"a later instance reads something else than was committed: {df[:200]}", case)
+    finally:
+        shutil.rmtree(d, ignore_errors=True)
+    return None
 
 
 def search(ctx: C.Ctx, disagreements, broken) -> List[C.Failing]:
@@ -1020,4 +1097,6 @@ def search(ctx: C.Ctx, disagreements, broken) -> List[C.Failing]:
 def replay(case) -> Optional[C.Failing]:
     if case.get("kind") == "conc":
         return check_schedule(case["cfg"], case["sched"])
+    if case.get("kind") == "rich":
+        return check_rich(case["seed"], case["index"])
     return check_sequence(case["ops"])
